@@ -15,6 +15,7 @@ import (
 	"bufio"
 	"bytes"
 	"crypto/sha256"
+	"encoding/hex"
 	"encoding/json"
 	"fmt"
 	"math/big"
@@ -247,6 +248,35 @@ func exec(line string) string {
 		e1 := s.Deserialize(b1)
 		e2 := s.Deserialize(b2)
 		return "err=" + b01(e1 != nil) + b01(e2 != nil) + " " + sigReport(s)
+	case w[0] == "sigh2" && len(w) == 3:
+		b1, ok1 := unhex(w[1])
+		b2, ok2 := unhex(w[2])
+		if !ok1 || !ok2 {
+			return "bad-op"
+		}
+		s := &groupsig.Signature{}
+		s.SetHexString("0x" + hex.EncodeToString(b1))
+		s.SetHexString("0x" + hex.EncodeToString(b2))
+		return sigReport(s)
+	case (w[0] == "pkd2" || w[0] == "pkh2") && len(w) == 3:
+		b1, ok1 := unhex(w[1])
+		b2, ok2 := unhex(w[2])
+		if !ok1 || !ok2 {
+			return "bad-op"
+		}
+		var pk groupsig.Pubkey
+		if w[0] == "pkh2" {
+			pk.SetHexString("0x" + hex.EncodeToString(b1))
+			pk.SetHexString("0x" + hex.EncodeToString(b2))
+			return pubReport(&pk)
+		}
+		pk.Deserialize(b1)
+		err := pk.Deserialize(b2)
+		st := errClass(err)
+		if err == nil {
+			st = fmt.Sprintf("ok %d", len(b2)-128)
+		}
+		return st + " " + pubReport(&pk)
 	case w[0] == "pkd" && len(w) == 2:
 		b, ok := unhex(w[1])
 		if !ok {
@@ -546,6 +576,25 @@ func (g *gen) scalar() *big.Int {
 		v := new(big.Int).SetBytes(r.Bytes(32))
 		return v.Mod(v, bigR)
 	}
+}
+
+// leadingZeroPubkeySk searches for a secret key whose PUBLIC key encoding has a zero first byte in
+// coordinate `coord` (0: the very first byte of the 128-byte encoding). ~256 scalar multiplications.
+// The byte property is checked on the serialised bytes; nothing else is assumed of the code here.
+func (g *gen) leadingZeroPubkeySk(coord int) *big.Int {
+	k := new(big.Int).SetBytes(g.r.Bytes(31))
+	k.Add(k, big.NewInt(2))
+	cur := new(bn.G2).ScalarBaseMult(k)
+	base := bn.GetG2Base()
+	for i := 0; i < 20000; i++ {
+		b := cur.Marshal()
+		if len(b) == 128 && b[32*coord] == 0 {
+			return new(big.Int).Mod(k, bigR)
+		}
+		k.Add(k, big.NewInt(1))
+		cur = new(bn.G2).Add(cur, base)
+	}
+	return g.sk()
 }
 
 // valid non-zero secret key
@@ -972,6 +1021,11 @@ func runCorr(a map[string]string) {
 			}
 			g.count("msg:short-hash-coordinate")
 		}
+		if i%8 == 1 || i%8 == 6 {
+			// public key whose encoding starts with 0x00 (i%8 == 1) / has a leading zero elsewhere
+			sk = g.leadingZeroPubkeySk((i % 8 / 2) % 4)
+			g.count("pk:leading-zero-byte")
+		}
 		sigs := g.sigCandidates(sk, msg)
 		pks := g.pkCandidates(sk)
 		for si, s := range sigs {
@@ -1014,6 +1068,22 @@ func runCorr(a map[string]string) {
 			s1 := sigs[r.Intn(len(sigs))]
 			s2 := sigs[r.Intn(len(sigs))]
 			do("sigd2 " + hx.Hex(s1.b) + " " + hx.Hex(s2.b))
+			do("sigh2 " + hx.Hex(s1.b) + " " + hx.Hex(s2.b))
+			k1 := pks[r.Intn(len(pks))]
+			k2 := pks[r.Intn(len(pks))]
+			do("pkd2 " + hx.Hex(k1.b) + " " + hx.Hex(k2.b))
+			do("pkh2 " + hx.Hex(k1.b) + " " + hx.Hex(k2.b))
+		}
+		// parse targets that already hold the honest value: valid-then-garbage for every candidate class
+		for _, c := range []int{1, 2, 8, 10, 11, 13, 14, 27} {
+			if c < len(sigs) {
+				do("sigd2 " + hx.Hex(sigs[0].b) + " " + hx.Hex(sigs[c].b))
+				do("sigh2 " + hx.Hex(sigs[0].b) + " " + hx.Hex(sigs[c].b))
+			}
+			if c < len(pks) {
+				do("pkd2 " + hx.Hex(pks[0].b) + " " + hx.Hex(pks[c].b))
+				do("pkh2 " + hx.Hex(pks[0].b) + " " + hx.Hex(pks[c].b))
+			}
 		}
 		do("sign " + sk.String() + " " + hx.Hex(msg))
 	}
